@@ -1,4 +1,4 @@
 SPECIFICATION Spec
-CONSTANTS MaxExt = 6  IgnoreUntil = TRUE  AllowedFins = {}
+CONSTANTS MaxExt = 6  IgnoreUntil = TRUE  AllowedFins = {}  Extra = FALSE
 INVARIANTS FinBeforeOut
 CHECK_DEADLOCK FALSE
